@@ -23,6 +23,10 @@ pub struct DwarfPlan {
     pub sequences: Vec<Vec<usize>>,
     /// also emit a row at the function's body start (non-instruction address)
     pub row_at_function_start: bool,
+    /// the sequence's DW_LNE_set_address names the size LEB of its first
+    /// function's code entry (the sequence covers exactly the entry's byte
+    /// range); the first row is reached by advancing from there
+    pub base_at_size_field: bool,
     /// give the compile unit DIE a low_pc/high_pc pair spanning all functions
     pub cu_range: bool,
     /// subprograms get child DIEs (parameters, a lexical block with its own
@@ -84,6 +88,15 @@ fn sequence_rows(m: &ModuleD, plan: &DwarfPlan, seq: &[usize]) -> (Vec<(u64, u64
     (rows, end)
 }
 
+fn sequence_base(m: &ModuleD, plan: &DwarfPlan, seq: &[usize], rows: &[(u64, u64)]) -> u64 {
+    if plan.base_at_size_field {
+        let cs = m.code_section_start.unwrap_or(0) as u64;
+        m.funcs[seq[0]].entry_range.start as u64 - cs
+    } else {
+        rows[0].0
+    }
+}
+
 fn hand_encoded_v5_line_program(m: &ModuleD, plan: &DwarfPlan) -> Vec<u8> {
     let mut prog = Vec::new();
     for seq in &plan.sequences {
@@ -93,10 +106,11 @@ fn hand_encoded_v5_line_program(m: &ModuleD, plan: &DwarfPlan) -> Vec<u8> {
         }
         // DW_LNE_set_address
         prog.extend_from_slice(&[0x00, 0x05, 0x02]);
-        prog.extend_from_slice(&(rows[0].0 as u32).to_le_bytes());
+        let base = sequence_base(m, plan, seq, &rows);
+        prog.extend_from_slice(&(base as u32).to_le_bytes());
         // DW_LNS_set_file 0  (what clang emits for every row in DWARF 5)
         prog.extend_from_slice(&[0x04, 0x00]);
-        let mut addr = rows[0].0;
+        let mut addr = base;
         let mut line: i64 = 1;
         for (a, l) in &rows {
             if *a != addr {
@@ -173,7 +187,7 @@ pub fn synthesize(m: &ModuleD, plan: &DwarfPlan) -> Option<Vec<(String, Vec<u8>)
         if rows.is_empty() {
             continue;
         }
-        let base = rows[0].0;
+        let base = sequence_base(m, plan, seq, &rows);
         program.begin_sequence(Some(gw::Address::Constant(base)));
         for (a, l) in &rows {
             program.row().address_offset = a - base;
@@ -265,7 +279,9 @@ pub fn gen_plan(m: &ModuleD, ch: &mut Ch) -> DwarfPlan {
     }
     let cu_range = ch.chance(1, 3);
     let children = ch.chance(1, 2);
+    let base_at_size_field = ch.chance(1, 4);
     DwarfPlan {
+        base_at_size_field,
         children,
         version,
         low_pc_at_body,
@@ -282,6 +298,7 @@ pub fn gen_plan_simple(m: &ModuleD, ch: &mut Ch) -> DwarfPlan {
         low_pc_at_body: true,
         sequences: (0..m.funcs.len()).map(|i| vec![i]).collect(),
         row_at_function_start: ch.chance(1, 3),
+        base_at_size_field: false,
         cu_range: ch.chance(1, 2),
         children: ch.chance(1, 2),
     }
@@ -323,6 +340,7 @@ pub fn attach_dwarf_codeless(bytes: &[u8]) -> Option<Vec<u8>> {
         low_pc_at_body: true,
         sequences: vec![],
         row_at_function_start: false,
+        base_at_size_field: false,
         cu_range: false,
         children: false,
     };
